@@ -19,7 +19,7 @@ func init() {
 	register(&Rule{
 		Prop: "C04",
 		Explanation: "Every way a command can enter a search answer passes both filters, decided from the SSA form for every database, query and flag setting: (O-1) each insertion site of the engine — the score-accumulator update of the lexical/NLP path, the matcher-target store of the typo fallback (an unfilled target never matches), and the result append of the pipeline search — is unreachable unless the platform gate passed for that very command (same index / same pointer) and unless the pipeline gate passed (PipelineOnly false or isPipelineCommand of that command); cached answers are conversions of such lists; " +
-			"(O-2) the platform gate is one function whose `true` results are reachable only through: AllPlatforms; no declared platform; a declared platform equal to the host platform when no platform was requested, or to one of the requested platforms (every element of Platforms is tried); or, only when NoCrossPlatform is false, the cross-platform tag / recognised cross-platform tool — and every SearchOptions field the CLI fills from a flag is read on the path the CLI calls; (O-3) every comparison of a platform tag is case-insensitive (EqualFold, or a ToLower image against lower-case names); (O-5) the alias tests of the platform families, read off as a table of (family, test kind, constant), accept no platform name or alias constant of another family; (O-4) all paths use the same pipeline classifier and the same cross-platform-tool classifier. The content of the alias table and of the tool whitelist is data and not decided.",
+			"(O-2) the platform gate is one function whose `true` results are reachable only through: AllPlatforms; no declared platform; a declared platform equal to the host platform when no platform was requested, or to one of the requested platforms (every element of Platforms is tried); or, only when NoCrossPlatform is false, the cross-platform tag / recognised cross-platform tool — and every SearchOptions field the CLI fills from a flag is read on the path the CLI calls; (O-3) every comparison of a platform tag is case-insensitive (EqualFold, or a ToLower image against lower-case names); (O-5) the alias tests of the platform families, read off as a table of (family, test kind, constant), accept no platform name or alias constant of another family; (O-4) all paths use the same pipeline classifier and the same cross-platform-tool classifier; (O-6) every option the gates read is a serialised part of the cache key and is copied unchanged from the searched options wherever cache options are built, so a cached list was filtered under the same filter options as the request it answers. The content of the alias table and of the tool whitelist is data and not decided.",
 		NotDecided:  []string{"whether the platform alias table is complete and which tools the cross-platform whitelist names (only the disjointness of the alias families is decided, O-5)", "the CLI's last-resort recovery search, which the property's filter clause does not list (it filters nothing)"},
 		Assumptions: []string{"fuzzy.Find never matches an empty target for a non-empty pattern"},
 		Run:         runC04,
@@ -537,6 +537,7 @@ func runC04(c *Ctx) {
 	c04Consumed(c)
 	c04Case(c, g)
 	c04Aliases(c, g)
+	c04CachedAnswers(c, g, sx)
 }
 
 // c04Gate checks the meaning of the platform gate function.
@@ -1405,4 +1406,28 @@ func c04TrueOnlyLegit(v ssa.Value, d int, isCls func(*ssa.Call) bool, legit map[
 		return len(phi.Edges) > 0
 	}
 	return false
+}
+
+// c04CachedAnswers: O-6. "Both filters apply equally to ... cached answers": a
+// cached list was filtered under the options of the request that filled the
+// entry, so it is the right answer for a later request only if every option
+// the two gates read is part of the cache key, unchanged. The fields are read
+// off the gate's own closure (plus the pipeline switch); the projection rule
+// is the one C05 O-1 applies to the whole read set.
+func c04CachedAnswers(c *Ctx, g *gateInfo, sx *symx.Ctx) {
+	r := c.R
+	r.Rule("O-6", "cached answers: every option the platform gate or the pipeline gate reads is a serialised field of the cache key options and is copied unchanged from the searched options wherever cache options are built")
+	R := optionReadsIn(c, reachClosure(c, []*ssa.Function{g.fn}))
+	all, _ := optionReads(c)
+	if pos, ok := all["PipelineOnly"]; ok {
+		R["PipelineOnly"] = pos
+	}
+	var names []string
+	for f := range R {
+		names = append(names, f)
+	}
+	sort.Strings(names)
+	r.Analysed["options_read_by_the_gates"] = names
+	r.Floor("O-6", "options read by the gates", len(names), 4)
+	c05Projection(c, sx, "O-6", names, R, 1)
 }
